@@ -101,6 +101,9 @@ func run(t *testing.T, tape *simrt.Tape) *hx.Outcome {
 	expireDen := []int{0, 3}[c(2)]
 	withMirror := c(2) == 0
 	hostShape := c(4)
+	// header names as an operator may spell them in the config file: canonical or not
+	regKey := []string{"X-Reg-Key", "x-reg-key"}[c(2)]
+	mirrorKey := []string{"X-Mirror-Key", "x-mirror-KEY"}[c(2)]
 	nLayerTasks := 1 + c(3)
 	criFailDen := []int{0, 5}[c(2)]
 	hdrReg := fmt.Sprintf("HDR-reg-%x", tape.Seed&0xffffff)
@@ -326,17 +329,17 @@ func run(t *testing.T, tape *simrt.Tape) *hx.Outcome {
 			var ms []resolver.MirrorConfig
 			switch hostShape {
 			case 0:
-				ms = []resolver.MirrorConfig{{Host: "mirror.example", Header: map[string]any{"X-Mirror-Key": hdrMirror}}, {Host: "reg.example", Header: map[string]any{"X-Reg-Key": []any{hdrReg}}}}
+				ms = []resolver.MirrorConfig{{Host: "mirror.example", Header: map[string]any{mirrorKey: hdrMirror}}, {Host: "reg.example", Header: map[string]any{regKey: []any{hdrReg}}}}
 			case 1:
-				ms = []resolver.MirrorConfig{{Host: "mirror.example", Header: map[string]any{"X-Mirror-Key": hdrMirror}}}
+				ms = []resolver.MirrorConfig{{Host: "mirror.example", Header: map[string]any{mirrorKey: hdrMirror}}}
 			case 2:
-				ms = []resolver.MirrorConfig{{Host: "mirror.example", Header: map[string]any{"X-Mirror-Key": hdrMirror}}, {Host: "reg.example"}}
+				ms = []resolver.MirrorConfig{{Host: "mirror.example", Header: map[string]any{mirrorKey: hdrMirror}}, {Host: "reg.example"}}
 			default:
-				ms = []resolver.MirrorConfig{{Host: "mirror.example"}, {Host: "reg.example", Header: map[string]any{"X-Reg-Key": hdrReg}}}
+				ms = []resolver.MirrorConfig{{Host: "mirror.example"}, {Host: "reg.example", Header: map[string]any{regKey: hdrReg}}}
 			}
 			rcfg.Host["reg.example"] = resolver.HostConfig{Mirrors: ms}
 		} else {
-			rcfg.Host["reg.example"] = resolver.HostConfig{Mirrors: []resolver.MirrorConfig{{Host: "reg.example", Header: map[string]any{"X-Reg-Key": hdrReg}}}}
+			rcfg.Host["reg.example"] = resolver.HostConfig{Mirrors: []resolver.MirrorConfig{{Host: "reg.example", Header: map[string]any{regKey: hdrReg}}}}
 		}
 		hosts := resolver.RegistryHostsFromConfig(rcfg, creds)
 		ctx := context.Background()
